@@ -85,7 +85,7 @@ func execute(t *testing.T, h Harness, prop, tier string, seed uint64, cfg any, s
 			if wantTrace {
 				sim.TraceOut = &trace
 			}
-			env = &Env{Sim: sim, Prop: prop, Tier: tier}
+			env = &Env{Sim: sim, Prop: prop, Tier: tier, PreIDs: pre, SimCfg: simCfg}
 			defer func() {
 				if r := recover(); r != nil {
 					rec.Panic = fmt.Sprint(r) + "\n" + string(debug.Stack())
